@@ -7,7 +7,7 @@
 From Coq Require Import List Arith ZArith Bool Reals.
 From T4V Require Import Base.Scalar C07.Model C07.ProofsAlgebra C07.ProofsComb C07.ProofsMain
   C07.ProofsGeom C07.ProofsExample C07.ProofsDomain C07.ProofsRhp C07.ModelDevelop C07.ProofsDevelop
-  C07.ProofsErrors C07.LinkC03 C07.ProofsCaps C07.ProofsFlip C07.ProofsFlipSet C07.LinkC04 C07.ProofsShape.
+  C07.ProofsErrors C07.LinkC03 C07.ProofsCaps C07.ProofsFlip C07.ProofsFlipSet C07.LinkC04 C07.ProofsShape C07.ProofsAxial.
 Import ListNotations.
 Open Scope R_scope.
 
@@ -586,6 +586,22 @@ Theorem C07_base_vectors_by_shape : forall (surfs : list rsurf) (adj : adjacency
      (exists vs, hexLatticeBaseVectors RS surfs = Ok vs) \/ hexLatticeBaseVectors RS surfs = Err EZeroDiv).
 Proof. exact base_vectors_by_shape. Qed.
 
+(* ... and EXACTLY decided when the six side planes are all parallel to one axis
+   (planes of a hexagonal prism listed in a wrong order, with flipped senses, a
+   pair of sides pushed away, ...; with eight planes, caps not parallel to the
+   axis): then no projection can divide by zero — no closed tour: the loop never
+   ends; a closed tour: two (three) base vectors *)
+Theorem C07_axial_planes_exact : forall (surfs : list rsurf) (adj : adjacency rline) (u : rvec),
+  u <> (0, 0, 0) ->
+  (forall k, (k < 6)%nat -> dot (snd (pl surfs k)) u = 0) ->
+  (List.length surfs = 6%nat \/
+   (List.length surfs = 8%nat /\ dot u (snd (pl surfs 6)) <> 0 /\ dot u (snd (pl surfs 7)) <> 0)) ->
+  hexSortSides RS (firstn 6 surfs) = Ok adj ->
+  (closed_tour (some_keys adj) = false -> hexLatticeBaseVectors RS surfs = Err ELoop) /\
+  (closed_tour (some_keys adj) = true ->
+     exists vs, hexLatticeBaseVectors RS surfs = Ok vs /\ List.length vs = (List.length surfs / 2 - 1)%nat).
+Proof. exact axial_planes_exact. Qed.
+
 (* ---------- link with C04 (coordinate transformations) ---------- *)
 
 (* A hexagonal prism under TRCL / a TRn on its plane cards.  moved_surfs o b is
@@ -642,8 +658,8 @@ Print Assumptions C07_family_base_vectors.
 
 (* error behaviour outside the family of the main theorem *)
 Theorem C07_family_errors :
-  ltac:(let t := type of (conj C07_base_vectors_wrong_count (conj C07_intersection_error_iff (conj C07_sort_sides_outcomes (conj C07_base_vectors_parallel_planes (conj C07_collinear_sides_parallel (conj C07_caps_parallel_to_axis (conj C07_flipped_sense_lattice_error (conj C07_flipped_set_lattice_error (conj C07_base_vectors_outcomes C07_base_vectors_by_shape))))))))) in exact t).
-Proof. exact (conj C07_base_vectors_wrong_count (conj C07_intersection_error_iff (conj C07_sort_sides_outcomes (conj C07_base_vectors_parallel_planes (conj C07_collinear_sides_parallel (conj C07_caps_parallel_to_axis (conj C07_flipped_sense_lattice_error (conj C07_flipped_set_lattice_error (conj C07_base_vectors_outcomes C07_base_vectors_by_shape))))))))). Qed.
+  ltac:(let t := type of (conj C07_base_vectors_wrong_count (conj C07_intersection_error_iff (conj C07_sort_sides_outcomes (conj C07_base_vectors_parallel_planes (conj C07_collinear_sides_parallel (conj C07_caps_parallel_to_axis (conj C07_flipped_sense_lattice_error (conj C07_flipped_set_lattice_error (conj C07_base_vectors_outcomes (conj C07_base_vectors_by_shape C07_axial_planes_exact)))))))))) in exact t).
+Proof. exact (conj C07_base_vectors_wrong_count (conj C07_intersection_error_iff (conj C07_sort_sides_outcomes (conj C07_base_vectors_parallel_planes (conj C07_collinear_sides_parallel (conj C07_caps_parallel_to_axis (conj C07_flipped_sense_lattice_error (conj C07_flipped_set_lattice_error (conj C07_base_vectors_outcomes (conj C07_base_vectors_by_shape C07_axial_planes_exact)))))))))). Qed.
 Print Assumptions C07_family_errors.
 
 (* statements that import another property (C06: develop_lattice; C03: rhp) *)
